@@ -133,6 +133,10 @@ def gen_scripts(prop, tier, rng):
             for kind in gen.KINDS:
                 S.append(gen.valid_history(rng, kind, 25))
                 S.append(gen.valid_history(rng, kind, 20, small=True))
+        # setter calls that supersede a pending request
+        for _ in range(2 * n):
+            for kind in gen.ASYNC:
+                S.append(gen.superseded_history(rng, kind))
         # chunk x ratio products that are integers in exact arithmetic, next to powers of two
         for _ in range(3 * n):
             for kind in gen.ASYNC:
@@ -154,6 +158,9 @@ def gen_scripts(prop, tier, rng):
             for kind in gen.FFT + ["FastFixedIn", "FastFixedOut"]:
                 S.append(gen.valid_history(rng, kind, 15, signal="noise", varymask=True, ch=rng.choice([2, 3, 4])))
     elif prop == "C06":
+        for _ in range(n):
+            for kind in gen.ASYNC:
+                S.append(gen.superseded_history(rng, kind))
         for _ in range(2 * n):
             for kind in gen.ASYNC:
                 S.append(gen.valid_history(rng, kind, 30, allow=("ratio", "ramp", "chunk", "reset"), T=64))
